@@ -71,12 +71,16 @@ def instances(u, tier):
     precs = tcfg.pop('precisions', u.get('precisions', None))
     if precs is None:
         precs = ['-']
+    variants = tcfg.pop('variants', u.get('variants', None)) or [{}]
     out = []
     for pr in precs:
-        inst = dict(PRECS.get(pr, {}))
-        inst.update({k: v for k, v in tcfg.items()})
-        nm = u['name'] if pr == '-' else f"{u['name']}[{pr}]"
-        out.append((nm, inst))
+        for var in variants:
+            inst = dict(PRECS.get(pr, {}))
+            inst.update({k: v for k, v in tcfg.items()})
+            inst.update({k: v for k, v in var.items() if k != 'name'})
+            tag = ','.join(x for x in ([pr] if pr != '-' else []) + ([var['name']] if var.get('name') else []))
+            nm = u['name'] + (f'[{tag}]' if tag else '')
+            out.append((nm, inst))
     return out
 
 def normalize_spec(text, dirs=()):
@@ -239,7 +243,29 @@ def run_instance(u, nm, inst, tier, keep=False):
                  '--unwind', str(inst.get('unwind', u.get('unwind', 10))), '--unwinding-assertions',
                  '--object-bits', str(u.get('object_bits', 10))]
         flags += [subst(x, inst) for x in u.get('cbmc', [])]
-        cmd = ['cbmc', b, '--json-ui', '--trace'] + flags
+        focus = os.environ.get('VERIF_FOCUS')
+        if focus:
+            rc, out, err, _ = sh(['cbmc', b, '--show-properties', '--json-ui'] + flags, cwd=work, timeout=300)
+            ids = []
+            for m in json.loads(out):
+                for pr in m.get('properties', []):
+                    loc = pr.get('sourceLocation', {})
+                    key = (loc.get('file', ''), int(loc.get('line', 0) or 0))
+                    lab = cmap.get(key, ('', '', '', ''))[2] if key in cmap else ''
+                    if re.search(focus, pr['name']) or (lab and re.search(focus, lab)) or re.search(focus, pr.get('description', '') + '@' + str(loc.get('line', ''))):
+                        ids.append(pr['name'])
+            if any('postcondition' in i for i in ids) and not os.environ.get('VERIF_FOCUS_ALL'):
+                ids = [i for i in ids if 'postcondition' in i]
+            print('focus ids:', ids[:20])
+            rc, out, err, dt = sh(['cbmc', b, '--trace'] + flags + [x for i in ids[:8] for x in ('--property', i)], cwd=work, timeout=to)
+            keep = []
+            for ln in out.split('\n'):
+                if re.match(r'^\s*(in_|g_)[\w\[\]\.]*=|^\[|Violated|^  [a-z_]+=|VERIFICATION|State \d+ file.*(%s)' % '|'.join(['SRC']), ln):
+                    if 'State' in ln: continue
+                    keep.append(ln[:200])
+            print('\n'.join(keep[-400:]))
+            res['status'] = 'focus'; return res
+        cmd = ['cbmc', b, '--json-ui'] + flags
         res['cmds'].append(' '.join(cmd))
         outf = os.path.join(work, 'cbmc.json')
         with open(outf, 'wb') as fo:
@@ -297,9 +323,25 @@ def run_instance(u, nm, inst, tier, keep=False):
                 ob['kind'] = 'dfcc-internal'
             else:
                 ob['kind'] = 'obligation'
-            if st == 'FAILURE' and ob['kind'] != 'canary':
-                ob['trace'] = r.get('trace', [])
             res['obligations'].append(ob)
+        # second pass: counterexample traces for (at most 3) failed non-canary obligations
+        failed = [ob for ob in res['obligations'] if ob['status'] == 'FAILURE' and ob['kind'] in ('obligation', 'dfcc-internal')]
+        want = [ob for ob in failed if u.get('_trace_all') or True][:int(os.environ.get('VERIF_MAXTRACES', '3'))]
+        if want and not os.environ.get('VERIF_NOTRACE'):
+            cmd2 = ['cbmc', b, '--json-ui', '--trace'] + flags + [x for ob in want for x in ('--property', ob['cbmc_id'])]
+            outf2 = os.path.join(work, 'cbmc_trace.json')
+            with open(outf2, 'wb') as fo:
+                rc2, _, err2, dt2 = sh(cmd2, cwd=work, timeout=to, mem_gb=float(u.get('mem_gb', 12)), stdout=fo)
+            res['solver_s'] = round(res['solver_s'] + dt2, 1)
+            try:
+                for m in json.load(open(outf2)):
+                    if 'result' in m:
+                        for r2 in m['result']:
+                            if r2.get('trace'):
+                                for ob in want:
+                                    if ob['cbmc_id'] == r2['property']: ob['trace'] = r2['trace']
+            except Exception as e:
+                res['notes'].append('trace pass failed: %r' % (e,))
         res['canaries'] = canaries; res['canaries_failed'] = canaries_failed
         res['ignoring'] = ignoring
         res['has_loop_obligations'] = has_loop_ob
